@@ -41,6 +41,7 @@ def run(ctx, rep):
     result_identity(F, rep)
     methods_answered_by_the_interpreter(F, rep)
     equality_reaches_elements(F, rep)
+    list_identity_is_the_cell(F, rep)
     values_not_views(F, rep)
     # what an assignment instruction writes into a list / map slot is a value, never a view of another slot (shared rule with C08)
     from props import C08 as _c08
@@ -810,3 +811,26 @@ def equality_reaches_elements(F, rep, rule="C13.element-equality"):
                "" if offered == px else "offered=%s, supports_equ=%s: `ms.index_of(ms[0])` on a list of maps compiles and the built-in panics (exit 101)" % (offered, px),
                gpt.span, fn=gpt.path, key=key)
     rep.floor(rule + " index_of evaluations", m, 5)
+
+
+def list_identity_is_the_cell(F, rep, rule="C13.list-identity"):
+    """`a is b` on two lists (two maps) asks whether they are one container: every alias shares the GcCell, so the identity is the address of what is
+    *in the cell* (the Vec / HashMap header), or Gc::ptr_eq.  The address of the Vec's *buffer* is not an identity: a Vec that has not allocated
+    yet points at the same dangling address as every other empty one (`a: [int...] = []  b: [int...] = []  a is b` is true) and the buffer moves
+    when the list grows.  In the functions that answer runtime_addr_check for containers (the `addr` helpers of GcVector / GcMap) no buffer
+    pointer is taken (`as_ptr`, `as_mut_ptr`)."""
+    import re
+    rac = F.fn("bytecode::variables::primitive::Primitive::runtime_addr_check")
+    if rac is None:
+        raise AnchorMissing("Primitive::runtime_addr_check")
+    helpers = []
+    for c in rac.calls():
+        g = F.fn(c.callee() or "")
+        if g is not None and g.path.startswith("bytecode::") and re.search(r"Gc(Vector|Map)", g.path):
+            helpers.append(g)
+    rep.floor(rule + " identity helpers of containers", len({g.path for g in helpers}), 1)
+    for g in {h.path: h for h in helpers}.values():
+        bad = [c for c in g.calls() if re.search(r"::as_ptr$|::as_mut_ptr$|::as_ptr_range$", mir.strip_generics(c.callee() or ""))]
+        rep.ob(rule, "%s identifies the container by its cell, not by its buffer" % mir.short(g.path), "violated" if bad else "ok",
+               ("it takes %s: two empty lists share the dangling buffer address (`a is b` is true for two distinct empty lists) and a list changes "
+                "its address when it grows" % mir.short(bad[0].callee())) if bad else "", (bad[0].span if bad else g.span), fn=g.path, key="%s|%s" % (rule, mir.short(g.path)))
